@@ -105,6 +105,14 @@ def gen_pairs(ctx):
               mk_area(crs_of("merc", 0.0, 0.0, r), -5.0, 30.0, 80000.0, 31, 17))]
     for tag, src, dst in fixed[:ctx.n(2, 4)]:
         pairs.append({"tag": tag, "src": src, "dst": dst, "coef": [1.0, 0.5, -0.25]})
+    # CRSs with different axis units (degrees <-> metres): the slicer's buffer is 0; target sizes k*chunk+1 for chunk 5 and 16
+    ll = crs_of("longlat", 0.0, 0.0, r)
+    units = [("units_longlat_to_laea", mk_area(ll, 14.0, 52.0, 20000.0, 30, 34), mk_area(crs_of("laea", 12.0, 50.0, r), 14.5, 52.2, 15000.0, 21, 33)),
+             ("units_laea_to_longlat", mk_area(crs_of("laea", -40.0, -30.0, r), -41.0, -31.0, 12000.0, 28, 25), mk_area(ll, -40.6, -30.8, 9000.0, 17, 26)),
+             ("units_longlat_to_stere", mk_area(ll, 25.0, 68.0, 25000.0, 24, 40), mk_area(crs_of("stere", 20.0, 90.0, r), 24.0, 68.5, 22000.0, 31, 17)),
+             ("units_merc_to_longlat", mk_area(crs_of("merc", 100.0, 0.0, r), 101.0, 12.0, 8000.0, 33, 29), mk_area(ll, 101.2, 12.1, 10000.0, 26, 17))]
+    for tag, src, dst in units[:ctx.n(3, 4)]:
+        pairs.append({"tag": tag, "src": src, "dst": dst, "coef": [r.randint(-40, 40) / 8.0, 1.25, -0.75]})
     n = ctx.n(9, 60)
     thin = [(11, 17), (16, 33), (21, 9), (17, 26), (6, 17), (33, 11), (31, 33), (26, 21)]
     for k in range(n):
@@ -415,6 +423,109 @@ def check_legacy(ctx, pair, o):
                                "no value" if outside[i, j] else "%r (+-%.3g)" % (float(exp[i, j]), tol)), dict(rp, pixel=[i, j]))
 
 
+def composition(r, n, k, thin=False):
+    """n as k positive parts; with k >= 3 a non-last part differs from the first (irregular: not what an int chunk size gives)"""
+    k = max(1, min(k, n))
+    for _ in range(50):
+        cuts = sorted(r.sample(range(1, n), k - 1)) if k > 1 else []
+        parts = [b - a for a, b in zip([0] + cuts, cuts + [n])]
+        if thin and k >= 3 and n >= 4:
+            parts[1:2] = [1, parts[1] - 1] if parts[1] > 1 else parts[1:2]
+        if len(parts) < 3 or any(x != parts[0] for x in parts[1:-1]):
+            return parts
+    return parts
+
+
+def gen_decomps(ctx, pair):
+    r = ctx.rng
+    H, W = pair["dst"]["shape"]
+    h, w = pair["src"]["shape"]
+    out = [{"rows": [H], "cols": [W]}]
+    for q in range(ctx.n(2, 4)):
+        d = {"rows": composition(r, H, r.choice([3, 4]), thin=(q % 2 == 1)), "cols": composition(r, W, r.choice([3, 4]), thin=(q % 2 == 0))}
+        if q % 2 == 0:
+            d["src_chunks"] = [composition(r, h, 3), composition(r, w, 3)]
+        out.append(d)
+    return out
+
+
+def prefix_blocks(rows, cols):
+    rs = [(sum(rows[:k]), sum(rows[:k + 1])) for k in range(len(rows))]
+    cs = [(sum(cols[:k]), sum(cols[:k + 1])) for k in range(len(cols))]
+    return [(a, b) for a in rs for b in cs]
+
+
+def check_irregular(ctx, pair, decomps, ob):
+    """resample_blocks with explicit, irregular target (and source) decompositions against the single-block result"""
+    n0 = len(ctx.failures)
+    rp = {"pair": {k: pair[k] for k in ("tag", "src", "dst", "coef")}}
+    if "error" in ob or "error" in ob["decomps"][0]:
+        ctx.add_failure("C09.resampler_raises", "%s: single-block resample_blocks raised %s" % (pair["tag"], ob.get("error") or ob["decomps"][0]), dict(rp, irregular=decomps[0]))
+        return 1
+    h, w = pair["src"]["shape"]
+    H, W = pair["dst"]["shape"]
+    L, P = exact_positions(pair)
+    inside, outside = classify(L, P, h, w)
+    amb = ~(inside | outside)
+    tie = near_tie(L, P)
+    rho = geos_rho(pair, L, P)
+    ref = ob["decomps"][0]
+    for dc, o in zip(decomps[1:], ob["decomps"][1:]):
+        ctx.count("irregular_decompositions")
+        rpd = dict(rp, irregular=dc)
+        if "error" in o:
+            ctx.add_failure("C09.chunk_invariance.irregular_blocks", "%s: resample_blocks with chunk_size=(%s, %s) raises %s: %s"
+                            % (pair["tag"], tuple(dc["rows"]), tuple(dc["cols"]), o["error"], o.get("msg")), rpd)
+            continue
+        want = prefix_blocks(dc["rows"], dc["cols"])
+        got = [(tuple(b["rows"]), tuple(b["cols"])) for b in o["blocks"]]
+        if sorted(got) != sorted(want):
+            bad = [g for g in got if g not in want][:1]
+            ctx.add_failure("C09.chunk_invariance.irregular_blocks",
+                            "%s: resample_blocks with chunk_size=(%s, %s) cuts the target into blocks %s..., not into the prefix-sum tiling (e.g. %s is not a block of it)"
+                            % (pair["tag"], tuple(dc["rows"]), tuple(dc["cols"]), got[:4], bad), rpd)
+        if len(o["idx"][0]) != H * W or len(o["nn"]) != H * W or len(o["bil"]) != H * W:
+            ctx.add_failure("C09.chunk_invariance.irregular_blocks", "%s: resample_blocks with chunk_size=(%s, %s) returns %d index / %d nn / %d bilinear "
+                            "elements for a %dx%d target" % (pair["tag"], tuple(dc["rows"]), tuple(dc["cols"]), len(o["idx"][0]), len(o["nn"]), len(o["bil"]), H, W), rpd)
+            continue
+        for name in ("idx", "nn", "bil"):
+            if name == "idx":
+                a = np.array(ref["idx"]).reshape(2, H, W)
+                b = np.array(o["idx"]).reshape(2, H, W)
+                tol = 1e-9
+            else:
+                a = np.array(ref[name]).reshape(H, W)
+                b = np.array(o[name]).reshape(H, W)
+                tol = 1e-10 * max(1.0, float(np.nanmax(np.abs(a))) if np.isfinite(a).any() else 1.0)
+            na, nb = np.isnan(a), np.isnan(b)
+            diff = (na != nb) | (~na & ~nb & (np.abs(a - b) > tol))
+            if diff.ndim == 3:
+                diff = diff.any(axis=0)
+            diff &= ~(amb | (tie if name == "nn" else np.zeros_like(tie)))
+            if not diff.any():
+                continue
+            i, j = map(int, np.argwhere(diff)[0])
+            blk = next((bb for bb in o["blocks"] if (tuple(bb["rows"]), tuple(bb["cols"])) in want
+                        and bb["rows"][0] <= i < bb["rows"][1] and bb["cols"][0] <= j < bb["cols"][1]), None)
+            key = "C09.chunk_invariance.irregular_blocks"
+            if blk is not None:
+                thinb = blk["rows"][1] - blk["rows"][0] == 1 or blk["cols"][1] - blk["cols"][0] == 1
+                if "error" in blk.get("crop", {}):
+                    key = KEY_THIN if thinb else "C09.chunk_invariance.crop_raises"
+                elif not h_crop_holds(blk, L[i, j], P[i, j]):
+                    key = "C09.chunk_invariance.crop_too_small"
+                if key != "C09.chunk_invariance.irregular_blocks" and rho is not None and rho[i, j] >= 0.999:
+                    key = "C09.chunk_invariance.crop_at_geos_limb"
+            va = a[..., i, j].tolist() if a.ndim == 3 else float(a[i, j])
+            vb = b[..., i, j].tolist() if b.ndim == 3 else float(b[i, j])
+            ctx.add_failure(key, "%s %s: target pixel (%d,%d) at source (%.4f, %.4f) is %r with chunk_size=(%s, %s)%s but %r as a single block (%d pixels differ); block %s"
+                            % (pair["tag"], name, i, j, L[i, j], P[i, j], vb, tuple(dc["rows"]), tuple(dc["cols"]),
+                               " and source chunks %s" % (dc["src_chunks"],) if dc.get("src_chunks") else "", va, int(diff.sum()),
+                               blk and {k: blk[k] for k in ("rows", "cols", "crop")}), dict(rpd, key=key))
+            break
+    return len(ctx.failures) - n0
+
+
 def RUNS_differs_without_src_chunks(ref, ob, k):
     """True iff the same run WITHOUT source chunking (run 1: bilinear float64) already differs between the chunkings"""
     a, b = ref["runs"][1], ob["runs"][1]
@@ -641,7 +752,9 @@ def run(ctx):
     ctx.rule = ("area->area pairs: source/target CRS drawn from {laea, stere, merc, eqc, lcc, tmerc, longlat, aeqd} (always two different CRSs), "
                 "random centre, resolution ratio 0.4-2.2, offset up to 45% of the source extent, target shapes of which half leave a one-pixel-thick "
                 "remainder block for chunk size 5 or 16; each pair is resampled in one subprocess per PYTROLL_CHUNK_SIZE (4096 = single chunk, 16, 5; "
-                "thorough adds 7, 3, 10) for nn/bilinear x float64/float32 x 2-D/3-D x chunked source data; plus synthetic direct calls of the Cython "
+                "thorough adds 7, 3, 10) for nn/bilinear x float64/float32 x 2-D/3-D x chunked source data; pairs with different axis units (degrees <-> metres, "
+                "zero slicer buffer) with target sizes k*chunk+1; resample_blocks called directly with explicit irregular tuple-of-tuples target decompositions "
+                "(non-last chunks differ from the first, one-pixel-thick inner blocks) and irregular source chunkings, against the single block; plus synthetic direct calls of the Cython "
                 "kernels (affine, curvilinear, zero-gradient, inconsistent gradients, inf/NaN/huge targets, 1xN sources) and of the block interpolators "
                 "(ties, integers, edges, NaN, 1xN blocks). Non-trivial = the pair has target pixels both inside and outside the source hull of centres "
                 "/ the direct case has at least one valued and one unvalued pixel; distinct = distinct inputs")
@@ -649,6 +762,8 @@ def run(ctx):
     direct = gen_direct(ctx)
     interp = gen_interp(ctx)
     ntrace = ctx.n(3, 12)
+    irr = [k for k, p in enumerate(pairs) if p["tag"] in ("design", "units_longlat_to_laea", "units_laea_to_longlat") or p["tag"].startswith("rand")][:ctx.n(5, 20)]
+    decomps = {k: gen_decomps(ctx, pairs[k]) for k in irr}
     by_chunk = {}
     for k, p in enumerate(pairs):
         for cs in chunk_sizes_for(ctx, p):
@@ -659,6 +774,8 @@ def run(ctx):
         if cs == BIG_CHUNK:
             payload["direct"] = direct
             payload["interp"] = interp
+            payload["blocks"] = [{"src": pairs[k]["src"], "dst": pairs[k]["dst"], "data": [float(v) for v in data_of(pairs[k]).ravel()],
+                                  "decomps": decomps[k]} for k in irr]
             payload["legacy"] = [{"src": p["src"], "dst": p["dst"], "data": [float(v) for v in data_of(p).ravel()]} for p in pairs]
         return cs, ctx.impl("c09", payload, extra_env={"PYTROLL_CHUNK_SIZE": str(cs)}, timeout=1500)
 
@@ -679,6 +796,8 @@ def run(ctx):
         ctx.count("pair_%s_to_%s" % (p["src"]["proj"]["proj"], p["dst"]["proj"]["proj"]))
         check_pair(ctx, p, obs_by_chunk)
         check_legacy(ctx, p, results[BIG_CHUNK]["legacy"][k])
+        if k in decomps:
+            check_irregular(ctx, p, decomps[k], results[BIG_CHUNK]["blocks"][irr.index(k)])
         for cs, ob in obs_by_chunk.items():
             if "trace" in ob:
                 traces.append((p, cs, ob))
@@ -841,6 +960,12 @@ def replay(ctx, data):
     elif case.get("oracle") == "direct_src":
         o = ctx.impl("c09", {"direct": [case["case"]]})["direct"][0]
         source_vs_binary(ctx, case["case"], o)
+    elif case.get("irregular"):
+        p = case["pair"]
+        H, W = p["dst"]["shape"]
+        dcs = [{"rows": [H], "cols": [W]}, case["irregular"]]
+        o = ctx.impl("c09", {"blocks": [{"src": p["src"], "dst": p["dst"], "data": [float(v) for v in data_of(p).ravel()], "decomps": dcs}]})["blocks"][0]
+        check_irregular(ctx, p, dcs, o)
     elif case.get("legacy"):
         p = case["pair"]
         o = ctx.impl("c09", {"legacy": [{"src": p["src"], "dst": p["dst"], "data": [float(v) for v in data_of(p).ravel()]}]})["legacy"][0]
